@@ -6,7 +6,7 @@
 (* (Acceptable, FilterAfter, BestOfRetained) live in Filter0.tla, which is *)
 (* shared with the trace specification.                                    *)
 (***************************************************************************)
-EXTENDS Filter0
+EXTENDS Filter0, Json
 
 (* --- design-level state machine (abstract extended integers) ----------- *)
 
@@ -69,5 +69,5 @@ ExportLine ==
               acc  |-> AccSet(p, tol,
                         IF FilterSize = 0 THEN DOMAIN F ELSE SeqRange(flt))]]]]
 
-Export == (Len(F) = MaxLen) => PrintT(<<"EXPORT", ExportLine>>)
+Export == (Len(F) = MaxLen) => PrintT("EXPORT " \o ToJson(ExportLine))
 =============================================================================
